@@ -20,7 +20,10 @@ RULE = (
     "in EVERY completion order of the shower stage's partition tasks (stateless DFS with prefix replay on the real dask "
     "scheduler loop), plus one un-controlled real `threads` and `processes` run; all tables of one (configuration, seed) "
     "must be byte-identical. Channel isolation compares 'both' with the single-channel runs; structural clauses are "
-    "evaluated on every table; zero-survivor configurations included. States = complete schedules executed; distinct = "
+    "evaluated on every table; zero-survivor configurations included. Process-level histories: every sequence of preludes (importing every submodule, other runs in other "
+    "modes / tables / schedulers, configuration parsing incl. rejected inputs, grid files, stand-alone stage calls, failed runs, user changes of numpy settings "
+    "and of the working directory) up to depth 1 (quick) / 2 (thorough), each in an interpreter of its own, followed by a fixed probe (two seeded runs, "
+    "stage calls, accept/reject outcomes) that must equal the probe of a fresh process byte for byte. States = complete schedules executed; distinct = "
     "(configuration, scheduler, workers, number of distinct outcomes)."
 )
 ASSUMPTIONS = [
@@ -299,6 +302,22 @@ def run(ctx):
                 ctx.cap(f"{s['mode']}/{s['spectrum']}/{s['cloud']} {sch} w={w}: stopped after {n} schedules")
         for c, e, o, extra in v:
             ctx.violation(c, {"spec": s, "seed": seed, "extra": extra, "tier": tier}, e, o)
+    # process-level histories: every sequence of preludes (other entry points / configurations / schedulers / user
+    # settings) up to the depth of the tier, each in an interpreter of its own, followed by one fixed probe
+    from .. import prochist
+
+    hs, pres = prochist.explore(1 if tier == "quick" else 2)
+    pbase = pres[0]
+    if "error" in pbase:
+        ctx.violation("process_history_probe_completes", {"kind": "prochist", "seq": []}, "the probe runs in a fresh process", pbase["error"][-160:])
+    else:
+        for h, r in zip(hs, pres):
+            ctx.tick(2, ("prochist",) + tuple(h))
+            for c, e, o in prochist.diff(pbase, r):
+                ctx.violation(c, {"kind": "prochist", "seq": list(h)}, e, o)
+    tot += len(hs)
+    ctx.cov["process_histories"] = len(hs)
+    ctx.cov["process_history_preludes"] = sorted(prochist.PRELUDES)
     ctx.states = tot
     ctx.transitions = tot
     ctx.traces = tot
@@ -316,5 +335,12 @@ def run(ctx):
 
 
 def replay(case):
+    if case.get("kind") == "prochist":
+        from .. import prochist
+
+        base = prochist.run_history(())
+        if "error" in base:
+            return [("process_history_probe_completes", "the probe runs in a fresh process", base["error"][-160:])]
+        return prochist.diff(base, prochist.run_history(tuple(case["seq"])))
     v, _ = job((case["spec"], case["seed"], case.get("tier", "quick")))
     return [(c, e, o) for c, e, o, extra in v]
